@@ -132,7 +132,7 @@ def run_joins(res, tier, want):
                 continue
             raise Inconclusive("join driver failed rc=%s: %s" % (rc, lg[-800:]))
         good.append(f)
-    log("C09: %d join scenarios on the real code in %.1fs" % (per * nproc, time.time() - t0))
+    log("joins: %d join scenarios on the real code in %.1fs" % (per * nproc, time.time() - t0))
     d = vlib.tlc_dir(None)
     cfgp = os.path.join(d, "j.cfg")
     open(cfgp, "w").write(JCFG)
@@ -158,7 +158,7 @@ def run_joins(res, tier, want):
                 snaps += 1
                 if len(samples) < 2 and r["joined"]:
                     samples.append(r)
-    if len(joins) < 9:
+    if len(joins) < 9 and len(good) == len(files):      # drivers that died are reported as crashes, not as missing coverage
         raise Inconclusive("not every join was exercised: %s" % sorted(joins))
     return dict(lines=lines, snaps=snaps, joins=joins, samples=samples, scenarios=per * nproc)
 
@@ -240,7 +240,7 @@ def run_typed(res, tier, want):
                 reqs += 1
                 if len(samples) < 3 and r["op"] == "watch" and r["ns"]:
                     samples.append(r)
-    if len(pkgs) < 12:
+    if len(pkgs) < 12 and len(good) == len(files):
         raise Inconclusive("not every typed package was exercised: %s" % sorted(pkgs))
     return dict(lines=lines, snaps=snaps, reqs=reqs, pkgs=pkgs, samples=samples)
 
